@@ -184,7 +184,7 @@ pub fn generate(rng: &mut Rng, thorough: bool, out: &mut Out) {
         let (q, r) = run_chain3(h);
         out.case(q, r);
         // very short but non-zero incoming handles: the tangent direction is still defined and must be kept
-        let eps = [1e-4f64, 1e-5, 1e-7, 1e-9][k % 4];
+        let eps = [1e-4f64, 1e-5, 1e-7, 1e-9, 1e-10, 1e-12, 1e-14, 5.820766091346741e-11, 2.842170943040401e-14][k % 9];
         let (u, v) = (Pt2::new(0.6 * eps, 0.8 * eps), Pt2::new(-0.8 * eps, 0.6 * eps));
         let h = Hist2 {
             first: (a, b, c - u, c, sg),
